@@ -314,6 +314,8 @@ func (s *session) exec(line string) (string, error) {
 				return "", bad("decodec needs a mode")
 			}
 			mode = rest[1]
+		} else if toks[0] == "memdecode" && len(rest) == 2 {
+			mode = rest[1]
 		} else if len(rest) != 1 {
 			return "", bad("trailing tokens")
 		}
@@ -321,36 +323,63 @@ func (s *session) exec(line string) (string, error) {
 		if err != nil {
 			return "", badOp{err}
 		}
-		p := newTarget(rt)
-		var rd io.Reader
 		var consumed func() int
-		if mode == "seek" {
-			br := bytes.NewReader(data)
-			rd, consumed = br, func() int { return len(data) - br.Len() }
-		} else {
+		open := func() (io.Reader, error) {
+			if mode == "seek" {
+				br := bytes.NewReader(data)
+				consumed = func() int { return len(data) - br.Len() }
+				return br, nil
+			}
 			cr, err := splitChunks(data, mode)
 			if err != nil {
-				return "", badOp{err}
+				return nil, err
 			}
-			rd, consumed = cr, func() int { return cr.pos }
+			consumed = func() int { return cr.pos }
+			return cr, nil
 		}
-		var before runtime.MemStats
 		if toks[0] == "memdecode" {
-			runtime.GC()
-			runtime.ReadMemStats(&before)
+			// TotalAlloc delta and wall time of one Decode call (time: best of two when slow)
+			var res string
+			var alloc uint64
+			best := time.Duration(1 << 62)
+			for try := 0; try < 2; try++ {
+				rd, err := open()
+				if err != nil {
+					return "", badOp{err}
+				}
+				p := newTarget(rt)
+				var before, after runtime.MemStats
+				runtime.GC()
+				runtime.ReadMemStats(&before)
+				start := time.Now()
+				sr := binary.Default.Reader(rd)
+				out := p.MethodByName("Decode").Call([]reflect.Value{reflect.ValueOf(sr)})
+				el := time.Since(start)
+				runtime.ReadMemStats(&after)
+				sr.Close()
+				res = "ok"
+				if asErr(out[0]) != nil {
+					res = "err"
+				}
+				if try == 0 {
+					alloc = after.TotalAlloc - before.TotalAlloc
+				}
+				if el < best {
+					best = el
+				}
+				if el < 5*time.Millisecond {
+					break
+				}
+			}
+			return fmt.Sprintf("ok %d %s %d", alloc, res, best.Nanoseconds()), nil
 		}
+		rd, err := open()
+		if err != nil {
+			return "", badOp{err}
+		}
+		p := newTarget(rt)
 		sr := binary.Default.Reader(rd)
 		out := p.MethodByName("Decode").Call([]reflect.Value{reflect.ValueOf(sr)})
-		if toks[0] == "memdecode" {
-			var after runtime.MemStats
-			runtime.ReadMemStats(&after)
-			sr.Close()
-			res := "ok"
-			if asErr(out[0]) != nil {
-				res = "err"
-			}
-			return fmt.Sprintf("ok %d %s", after.TotalAlloc-before.TotalAlloc, res), nil
-		}
 		sr.Close()
 		if e := asErr(out[0]); e != nil {
 			return "err", nil
